@@ -269,9 +269,49 @@ def gen(rng, tier):
         tries += 1
         R = rng.choice([0, 1, 2, 2, 3])
         t = rng.randrange(8)
-        fam = rng.choice(["ll", "rr", "ss", "s_other", "s_other", "pp"])
+        fam = rng.choice(["ll", "rr", "ss", "s_other", "s_other", "pp", "cong", "cong"])
         a = b = None
-        if fam in ("ll", "rr"):
+        if fam == "cong":
+            # two mappings over index types of different width whose extents agree and whose strides (or one extent) differ by a multiple of
+            # 2^width(narrower type): equal after a narrowing cast, different mappings.  operator== must say "not equal".
+            R = rng.choice([1, 2, 2, 3])
+            t = rng.choice([0, 1, 2, 3, 4, 5])
+            t2 = rng.choice([x for x in range(8) if BITS[x] > BITS[t]])
+            nb = BITS[t]
+            es = [rng.choice([1, 2, 3, 4]) for _ in range(R)]
+            kind = rng.choice(["pp", "pp", "ss", "s_other", "ext"])
+            bump = (1 << nb) * rng.choice([1, 1, 2])
+            if kind == "pp" and R >= 2:
+                lay = rng.choice([LP, RP])
+                dpv = rng.choice([4, 5, 8])
+                instn = Inst(t, lay, DYN, rand_pattern(rng, es)); instw = Inst(t2, lay, DYN, rand_pattern(rng, es))
+                if not (instn.instantiable() and instw.instantiable()):
+                    continue
+                narrow = MV(instn, 2, es, None, dpv); wide = MV(instw, 2, es, None, dpv + bump)
+            elif kind == "ss":
+                ss = left_strides(es) if rng.random() < 0.5 else right_strides(es)
+                k = max(range(R), key=lambda q: (ss[q], q))
+                ssw = list(ss); ssw[k] += bump
+                narrow = MV(Inst(t, S, DYN, rand_pattern(rng, es)), 1, es, ss); wide = MV(Inst(t2, S, DYN, rand_pattern(rng, es)), 1, es, ssw)
+            elif kind == "s_other":
+                lay = rng.choice([L, R_])
+                ss = left_strides(es) if lay == L else right_strides(es)
+                k = max(range(R), key=lambda q: (ss[q], q))
+                ssw = list(ss); ssw[k] += bump
+                narrow = MV(Inst(t, lay, DYN, rand_pattern(rng, es)), 0, es); wide = MV(Inst(t2, S, DYN, rand_pattern(rng, es)), 1, es, ssw)
+            else:
+                lay = rng.choice([L, R_, S])
+                k = rng.randrange(R)
+                esw = list(es); esw[k] += bump
+                mk = lambda tt, ee: MV(Inst(tt, lay, DYN, tuple([DYN] * R)), 1 if lay == S else 0, ee, (left_strides(ee) if lay == S else None))
+                narrow, wide = mk(t, es), mk(t2, esw)
+            if not (narrow.valid_for(t) and wide.valid_for(t2)):
+                continue
+            a, b = (narrow, wide) if rng.random() < 0.5 else (wide, narrow)
+            hist["cmp congruent-mod-width %s" % kind] += 1
+        if fam == "cong":
+            pass
+        elif fam in ("ll", "rr"):
             lay = L if fam == "ll" else R_
             a = make_source(rng, lay, t, R)
             if a is None:
@@ -464,7 +504,9 @@ def collect(rep, prop, tier, seed, exe, replay=None):
         m = r["meta"]
         if m.get("rank", 0) >= 1:
             nontriv.add(tuple(str(x) for x in r["toks"][1:]))
-    flagged.sort(key=lambda x: len(x[0]["toks"]))
+    # cases that are failing inputs of the property itself first (then the smallest); within a case the failing issue first
+    flagged = [(r, cfg, sorted(iss, key=lambda i: not i[2])) for (r, cfg, iss) in flagged]
+    flagged.sort(key=lambda x: (not any(i[2] for i in x[2]), len(x[0]["toks"])))
     seen = set()
     for (r, cfg, iss) in flagged:
         key = (r["meta"].get("kind"), r["meta"].get("class", r["meta"].get("fam")), iss[0][0])
